@@ -153,7 +153,7 @@ func stateInitB64(c *enum.Ctx, si tlb.StateInit) string {
 	return s
 }
 
-const life = 300
+const defaultLife = 300
 
 func harnesses(r *fw.Run) []fw.HarnessSpec {
 	var hs []fw.HarnessSpec
@@ -172,10 +172,21 @@ func harnesses(r *fw.Run) []fw.HarnessSpec {
 		ki := keySeeds[c.ChooseFree(len(keySeeds))]
 		execMode := c.ChooseFree(4)
 		domain := domains[c.Choose(len(domains))]
+		// the two lifetimes of the server are separate options: the defaults (300 s / 300 s), a short proof lifetime next to
+		// a long payload lifetime, and the reverse. A proof's age is judged by the proof lifetime.
+		lifeOpt := c.ChooseFree(3)
+		life := []int64{300, 30, 3600}[lifeOpt]
+		payloadLife := []int64{300, 3600, 30}[lifeOpt]
 		tsOff := []int64{0, -life, -life + 1, -life - 1, -10}[c.Choose(5)]
-		variation := c.ChooseFree(25)
-		warm := c.ChooseFree(3) // the server instance has handled an earlier proof: 0 none, 1 a valid proof of another wallet, 2 a valid proof of this wallet
-		key := fmt.Sprintf("proof/%d/%d/%d/%q/%d/%d/%d", ver, ki, execMode, domain, tsOff, variation, warm)
+		variation := c.ChooseFree(26)
+		// the server instance has handled an earlier proof: 0 none, 1 a valid proof of another wallet, 2 a valid proof of this
+		// wallet, 3 a rejected attempt of the other wallet's holder to claim this wallet's address with her own state-init
+		warm := c.ChooseFree(4)
+		if lifeOpt != 0 && (variation != 0 || warm != 0 || execMode%2 != 0) {
+			c.Skip()
+			return
+		}
+		key := fmt.Sprintf("proof/%d/%d/%d/%q/%d/%d/%d/%d", ver, ki, execMode, domain, tsOff, variation, warm, lifeOpt)
 		c.Case([]byte(key), true)
 		c.Sample(map[string]any{"version": ver.ToString(), "key": ki, "executor": []string{"key", "other key", "error", "malformed stack"}[execMode], "domain_len": len(domain), "ts_offset": tsOff, "variation": variation})
 		c.Label("%s", key)
@@ -193,7 +204,11 @@ func harnesses(r *fw.Run) []fw.HarnessSpec {
 				wi.w.GetAddress():    wi.key.Public().(ed25519.PublicKey),
 				other.w.GetAddress(): other.key.Public().(ed25519.PublicKey),
 			}}
-			srv, err := tonconnect.NewTonConnect(ex, "secret-one")
+			var srvOpts []tonconnect.Option
+			if lifeOpt != 0 {
+				srvOpts = []tonconnect.Option{tonconnect.WithLifeTimeProof(life), tonconnect.WithLifeTimePayload(payloadLife)}
+			}
+			srv, err := tonconnect.NewTonConnect(ex, "secret-one", srvOpts...)
 			if err != nil {
 				c.Fail("setup", "%v", err)
 				return
@@ -340,9 +355,23 @@ func harnesses(r *fw.Run) []fw.HarnessSpec {
 					return // the scripted chain says the account's key is another key: not this case
 				}
 				reject("state-init and signature of another wallet for this address")
+			case 25:
+				// the genuine state-init, but signed by the holder of the other wallet
+				p.Proof.Signature = refSign(other.key, addr.Workchain, addr.Address, domain, ts, payload)
+				if execMode == 1 {
+					return // the scripted chain says the account's key is exactly that key: not this case
+				}
+				reject("signature by the other wallet's key")
 			}
 			// earlier traffic on the same server instance must not change the verdict
-			if warm > 0 {
+			if warm == 3 {
+				if wp, err := tonconnect.CreateSignedProof(payload, addr, other.key, other.init, tonconnect.ProofOptions{Timestamp: time.Unix(now.Unix(), 0), Domain: domain}); err == nil {
+					if okW, _, errW := srv.CheckProof(context.Background(), wp, srv.CheckPayload, tonconnect.StaticDomain(domain)); (okW || errW == nil) && execMode != 1 {
+						c.Fail("invalid-proof-accepted:claim-with-foreign-state-init", "a proof for this wallet's address with the other wallet's state-init and key was accepted")
+						return
+					}
+				}
+			} else if warm > 0 {
 				who := other
 				if warm == 2 {
 					who = wi
